@@ -26,6 +26,9 @@ pub struct World {
   pub count: [u64; 2],
   /// when false nothing is recorded (used for silent replays)
   pub recording: bool,
+  /// directory of the file resources of this run, and the debug text of each value's content hash stamp
+  pub file_dir: std::path::PathBuf,
+  pub hash_names: std::collections::HashMap<String, i64>,
 }
 
 thread_local! {
@@ -45,6 +48,8 @@ pub fn install(scn: Rc<Scenario>) {
       digest: [0xcbf29ce484222325, 0xcbf29ce484222325],
       count: [0, 0],
       recording: true,
+      file_dir: std::path::PathBuf::new(),
+      hash_names: std::collections::HashMap::new(),
     });
   });
 }
